@@ -17,7 +17,7 @@ func (eng *Engine) configure() {
 		}
 		for name, m := range sp.Members {
 			pos := eng.prog.Fset.Position(m.Pos())
-			if strings.HasSuffix(pos.Filename, "zz_verif_spec_gen.go") {
+			if strings.Contains(pos.Filename, "zz_verif_spec_gen") {
 				if _, ok := m.Type().(*types.Pointer); ok {
 					eng.ghostVars["G|"+path+"."+name] = true
 				}
